@@ -522,3 +522,21 @@ Ltac step_cases Hs :=
          | context [if ?x then _ else _] => destruct x eqn:?; cbn [at_ prog hnd its] in Hs
          end;
   try discriminate; inversion Hs; subst; clear Hs.
+
+(* the variant used by the invariant proofs: access checks are split first, and the pairs returned
+   by the allocator helpers are turned back into fst / snd of the call *)
+Ltac step_cases2 Hs :=
+  unfold tstep in Hs; cbn [at_ prog hnd its] in Hs;
+  repeat match type of Hs with
+         | context [chk ?b _ _] => destruct b eqn:?; cbn [chk] in Hs
+         | context [match ?x with _ => _ end] => destruct x eqn:?; cbn [at_ prog hnd its] in Hs
+         | context [if ?x then _ else _] => destruct x eqn:?; cbn [at_ prog hnd its] in Hs
+         end;
+  try discriminate; inversion Hs; subst; clear Hs.
+Ltac fold_fst :=
+  repeat match goal with
+         | H : ?f = (?g1, ?es) |- _ => is_var g1; is_var es;
+           let E1 := fresh in let E2 := fresh in
+           assert (g1 = fst f) as E1 by (rewrite H; reflexivity);
+           assert (es = snd f) as E2 by (rewrite H; reflexivity); clear H; subst g1; subst es
+         end.
